@@ -257,7 +257,7 @@ enum Op {
 }
 
 fn apply(c: &mut HCtx, op: &Op, pool: &[EV]) {
-    let names = ["a", "b", "näme with space"];
+    let names = ["a", "A", "näme with space", ""];
     match op {
         Op::Set(n, v) => {
             let _ = c.set_value(names[*n].to_string(), pool[*v].clone());
@@ -349,7 +349,7 @@ fn part_contexts(depth: usize, st: &mut Stats) {
         }
     }
     let mut ops: Vec<Op> = Vec::new();
-    for n in 0..3 {
+    for n in 0..4 {
         for v in 0..pool.len() {
             ops.push(Op::Set(n, v));
         }
@@ -358,7 +358,7 @@ fn part_contexts(depth: usize, st: &mut Stats) {
     ops.push(Op::SetFunction);
     ops.push(Op::Disable(true));
     ops.push(Op::Disable(false));
-    ops.push(Op::Assign("a = 1.0 / 3; b = (a, \"x\", ())"));
+    ops.push(Op::Assign("a = 1.0 / 3; B = (a, \"x\", ()); b = 2"));
     ops.push(Op::Assign("b = 0.1 + 0.2"));
     // depth-bounded exploration of API histories; at the deepest level only a slice of the value actions
     fn go(c: &HCtx, hist: &mut Vec<String>, ops: &[Op], pool: &[EV], left: usize, depth: usize, st: &mut Stats) {
@@ -417,7 +417,7 @@ fn write_outputs(tier: &str, seed: u64, st: &Stats, wall: f64) -> i32 {
         st.states,
         st.transitions,
         st.transitions,
-        esc("(a) depth-first search over every token sequence up to the tier's length over a 14-token alphabet and every character string up to the tier's length over 25 characters (quotes, backslashes, newline, multi-byte, signs, digits, dot, e, x, punctuation), each encoded as a RON string with ron::ser::to_string and decoded as Node: Ok trees must equal build_operator_tree(s), Err messages must equal error.to_string(); (b) every HashMapContext reachable by API histories up to the tier's depth over {set_value of 3 names x a value pool of all six types incl. i64 extremes, signed zero, subnormal, infinities, NaN, nested/empty tuples, hostile strings; clear_variables; set_function; builtin switch on/off; expression assignments}: from_str(to_string(c)) must have the same sorted variable map (floats by bits), the same switch and resolve no user function; plus every pool value as a bare Value. A state is a token/character prefix or a context history; a transition appends a token or applies an operation; every state is executed on the implementation. Non-trivial = sources of >= 3 bytes and contexts with >= 2 variables (each enumerated once)"),
+        esc("(a) depth-first search over every token sequence up to the tier's length over a 14-token alphabet and every character string up to the tier's length over 25 characters (quotes, backslashes, newline, multi-byte, signs, digits, dot, e, x, punctuation), each encoded as a RON string with ron::ser::to_string and decoded as Node: Ok trees must equal build_operator_tree(s), Err messages must equal error.to_string(); (b) every HashMapContext reachable by API histories up to the tier's depth over {set_value of 4 names (two differing only in case, one with a space and a non-ASCII letter, the empty name) x a value pool of all six types incl. i64 extremes, signed zero, subnormal, infinities, NaN, nested/empty tuples, hostile strings; clear_variables; set_function; builtin switch on/off; expression assignments}: from_str(to_string(c)) must have the same sorted variable map (floats by bits), the same switch and resolve no user function; plus every pool value as a bare Value. A state is a token/character prefix or a context history; a transition appends a token or applies an operation; every state is executed on the implementation. Non-trivial = sources of >= 3 bytes and contexts with >= 2 variables (each enumerated once)"),
         samples,
         counters,
         [
